@@ -499,6 +499,13 @@ pub fn from_impl_struct(s: &varlink_parser::VStruct) -> Ty {
 
 pub fn comments_of_doc(doc: &str) -> Vec<String> {
     let mut out = Vec::new();
+    // the documentation attached to a member is its comment block: it begins at the first '#'
+    // and ends with the last comment character, whatever layout characters (every one the
+    // grammar knows, U+FEFF and U+180E included) surround the block in the source
+    let edge = |c: Option<char>| c.map(|c| is_ws(c) || is_eol_char(c)).unwrap_or(false);
+    if edge(doc.chars().next()) || edge(doc.chars().last()) {
+        out.push(format!("<documentation block not trimmed: begins with {:?}, ends with {:?}>", doc.chars().next(), doc.chars().last()));
+    }
     let mut cur = String::new();
     let flush = |cur: &mut String, out: &mut Vec<String>| {
         // blanks at either end of a comment line are not part of the comment (the
